@@ -295,7 +295,7 @@ def main(tier, replay_file=None):
                              "rounds each, scheduling point at every "
                              "file-system / bpf / netlink call, <= 2 "
                              "preemptions (3 participants: 1)",
-                    fmmu="2 (3) processes creating/allocating concurrently, "
+                    fmmu="2 processes (thorough: also 3 without preemption) creating/allocating concurrently, "
                          "map absent or present with 2 symbolic bytes, "
                          "randrange adversarial over {1, 2, 9}",
                     crash="thorough: one participant may die at any point",
@@ -314,7 +314,7 @@ def main(tier, replay_file=None):
              ("f", 2, 1, False, False), ("f", 2, 1, False, True)]
     if tier != "quick":
         items += [("p", 3, 1, 1, False), ("p", 2, 1, 2, True),
-                  ("f", 2, 2, False, False), ("f", 3, 1, False, False),
+                  ("f", 2, 2, False, False), ("f", 3, 0, False, False),
                   ("f", 2, 1, True, False)]
     for res in common.pmap(worker, items):
         ck.add(res)
